@@ -138,7 +138,11 @@ class Unit:
     """one Rust source file -> one Lean namespace"""
 
     def __init__(self, repo, rel, ns, const_files=(), externals=None, struct_files=(), src=None, foreign_structs=None,
-                 tuple_structs=None, fn_files=(), views=None, rewrite=None, error_ctors=None, compact_guards=False):
+                 tuple_structs=None, fn_files=(), views=None, rewrite=None, error_ctors=None, compact_guards=False, any_order=False):
+        # `any_order`: a `for` over a set/map whose order the model does not know iterates the representing list as given;
+        # the tying theorem must then hold for EVERY list (every order, duplicates included) - it is the theorem, not the
+        # translator, that shows the order does not matter
+        self.any_order = any_order
         self.compact_guards = compact_guards   # `if c { policy_err!(..) }` -> one step `Rs.policyErrIf` (no join points)
         self.error_ctors = error_ctors or {}   # error constructor function -> tag prefix (the argument list is appended)
         self.repo, self.rel, self.ns = repo, rel, ns
@@ -743,6 +747,10 @@ class FnTranslator:
             return term
         if e[0] == "call" and e[1][0] == "path" and e[1][1][-1] in self.u.error_ctors and len(e[2]) == 1:
             # declared error constructor carrying a list of indices: tag = "<prefix> " ++ toString list
+            if e[2][0][0] in ("macro", "str"):
+                # a message: dropped, the error is its constructor's tag
+                self.dropped.append("message of %s(..)" % e[1][1][-1])
+                return '"%s"' % self.u.error_ctors[e[1][1][-1]]
             term, ty = self.expr(e[2][0], env, pre, None)
             if ty[0] != "vec" or not is_uint(ty[1]): raise RsError("error constructor argument outside the subset")
             return '("%s " ++ toString %s)' % (self.u.error_ctors[e[1][1][-1]], term)
@@ -1837,6 +1845,10 @@ class FnTranslator:
             return term, ("tuple", [t[1], t[2]])
         if unordered and getattr(self, "allow_unordered", False) and t[0] == "viter" and t[1][0] == "tuple":
             return term, t[1]
+        if unordered and self.u.any_order:
+            self.dropped.append("iteration order of a set/map: the representing list as given (the tying theorem quantifies over all lists)")
+            if t[0] in ("viter", "set", "uset"): return term, t[1]
+            return term, ("tuple", [t[1], t[2]])
         if unordered:
             raise RsError("iteration over a collection whose order the model does not know")
         if t[0] == "map": return term, ("tuple", [t[1], t[2]])
